@@ -48,6 +48,20 @@ CHECKS = {
             'using the invariant wf_ro along histories. Correspondence: all classes x blank/unknown/repeated/self-referential IDs x '
             'running orders with/without timing metadata x histories.',
             'section 5 C12', 'Coq theorems on a Gallina model + extracted-model differential run'),
+    'C03': ('proof', 'Theorems C03_frame_story_ops (every child of roCreate that the message neither names nor carries keeps identical '
+            'content and relative order, all 11 story-level classes; no ID hypothesis for the 8 non-move classes), '
+            'C03_frame_item_ops (whatever the message, only the children of the one addressed story can change) and '
+            'C03_frame_metadata (children not matched by tag / (tag, mosSchema) untouched), proved in Coq. Correspondence on '
+            'the complete resulting tree over rich running orders.',
+            'section 5 C03', 'Coq frame theorems on a Gallina model + extracted-model differential run on whole trees'),
+    'C04': ('proof', 'Theorems C04_story_send_shape, C04_payload_present (carried elements spliced in as identical values, contiguous, '
+            'in message order), C04_insert_dups_present, C04_roreplace, C04_metadata proved in Coq. Correspondence: random payloads '
+            'of depth <=4 [<=7] with attributes, mixed text/tails and markup-significant characters for the 13 payload-carrying classes.',
+            'section 5 C04', 'Coq theorems on a Gallina model + extracted-model differential run'),
+    'C06': ('proof', 'Theorems C06_raise_or_warn (silent success implies every named story ID was found), C06_delete_warnings, '
+            'C06_insert_warnings, C06_item_delete_warnings (exactly one warning per absent / duplicate element, the rest applied), '
+            'C06_fully_applied_is_silent, proved in Coq. Correspondence on (exception class, warning categories, resulting IDs).',
+            'section 5 C06', 'Coq theorems on a Gallina model + extracted-model differential run'),
 }
 
 
